@@ -311,6 +311,12 @@ func (x *Exec) builtinAppend(fr *Frame, st *State, v *ssa.Call) {
 		k, ksort, x.iLe(x.S.IdxLit(0), kt).S, x.iLt(kt, newLen).S, rarr.S, k,
 		x.iLt(kt, slen).S, sarr.S, x.iAdd(soff, kt).S, tarr.S, x.iAdd(toff, x.iSub(kt, slen)).S, rarr.S, k)
 	x.assume(Term{fmt.Sprintf("(ite %s %s %s)", fits.S, inPlace, fresh_), "Bool"})
+	// ground instance for the first appended element (append(s, x) is by far the
+	// common case): gives E-matching the select term of the new slot
+	{
+		first := mkIte(fits, x.iAdd(soff, slen), slen)
+		x.assume(mkImp(x.iLt(x.S.IdxLit(0), tlen), mkEq(mkSelect(rarr, first, es), mkSelect(tarr, toff, es))))
+	}
 	rref := mkIte(fits, sref, fresh)
 	x.heapSet(st, hn, mkStore(h, rref, rarr))
 	res := Term{fmt.Sprintf("(ite %s (mk_slice %s %s %s %s) (mk_slice %s %s %s %s))", fits.S,
